@@ -67,6 +67,25 @@ def BlobDir.run (d : BlobDir) : List BlobOp → BlobDir × List BlobOut
     let (d2, os) := d1.run rest
     (d2, o :: os)
 
+/-! ### several blob names in one directory -/
+
+/-- the blobs of one directory, by name (an index into the names used); every name has its own working directory and archive -/
+abbrev BlobStore := List (Nat × BlobDir)
+
+def BlobStore.get (s : BlobStore) (k : Nat) : BlobDir := ((s.find? (fun p => p.1 == k)).map (·.2)).getD {}
+
+/-- an operation on blob `k` touches the state of blob `k` only -/
+def BlobStore.step (s : BlobStore) (k : Nat) (op : BlobOp) : BlobStore × BlobOut :=
+  let r := (s.get k).step op
+  ((k, r.1) :: s.filter (fun p => p.1 != k), r.2)
+
+def BlobStore.run (s : BlobStore) : List (Nat × BlobOp) → BlobStore × List BlobOut
+  | [] => (s, [])
+  | (k, op) :: rest =>
+    let (s1, o) := s.step k op
+    let (s2, os) := s1.run rest
+    (s2, o :: os)
+
 /-! ### request validation and catalog decision of `read` -/
 
 inductive ReadDecision where
